@@ -53,6 +53,14 @@ def _steps(ctx):
     return out
 
 
+def _poc_arg(ctx, call, name):
+    """argument of a poc.compute_poc call by parameter name (positional
+    arguments bound through compute_poc's signature)"""
+    from ..astutil import bound_args
+    b = bound_args(call, ctx.repo.mod("poc").func("compute_poc"))
+    return b.get(name, ast.Constant(value=None))
+
+
 def _writes(f):
     """[(column or None, node)] columns assigned by a step"""
     ap = f.args.args[0].arg
@@ -68,8 +76,8 @@ def _writes(f):
                             st.targets[0]) == nm:
                         lst = st.value
             v = literal(lst)
-            if isinstance(v, list):
-                loops[n.target.id] = v
+            if isinstance(v, (list, tuple)):
+                loops[n.target.id] = list(v)
     for n in walk_no_nested(f, False):
         if isinstance(n, (ast.Assign, ast.AugAssign)):
             tg = n.targets if isinstance(n, ast.Assign) else [n.target]
@@ -171,7 +179,7 @@ def r2_relations(ctx):
     ws = [n for c, n in _writes(f) if c == "force"]
     ctx.floor("force offset assignments", len(ws), 1)
     poc_ok = any(call_name(c) == "poc.compute_poc" and R.text(
-        kwarg(c, "force")) == "apret['force']" for c in calls_in(f))
+        _poc_arg(ctx, c, "force")) == "apret['force']" for c in calls_in(f))
     ctx.check(poc_ok, f, "contact index estimated from the force",
               "the baseline region is not determined from the force column")
     for n in ws:
@@ -222,8 +230,9 @@ def r2_relations(ctx):
             srcs = {norm(x) for x in ast.walk(src)} if src is not None \
                 else set()
             pc = [c for c in calls_in(f) if call_name(c) == "poc.compute_poc"]
-            good = bool(pc) and norm(kwarg(pc[0], "force")) == \
-                "apret['force']" and norm(kwarg(pc[0], "method")) == "method"
+            good = bool(pc) and norm(_poc_arg(ctx, pc[0], "force")) == \
+                "apret['force']" and norm(_poc_arg(ctx, pc[0], "method")) \
+                == "method"
             ctx.check(good and ("data" in srcs or src is not None), n,
                       "index = contact point estimated with the chosen "
                       "method", "the offset index is not the contact point "
